@@ -69,6 +69,7 @@ pub enum Case {
     C07(crate::prop::c07::BudgetCase),
     C15(crate::prop::c15::HistoryCase),
     C17(crate::prop::c17::RenderCase),
+    C01(crate::prop::c01::TotalCase),
 }
 
 #[derive(Clone, Debug, Serialize, Deserialize)]
